@@ -32,6 +32,12 @@ type Case struct {
 	Perm2      []int     `json:"perm2"`
 	ExactLimit int       `json:"exact_limit"`
 	TiesLimit  int       `json:"ties_limit"`
+	// BeforeL1/BeforeL2, if set, are another pair of samples (levels into Values) on which the
+	// test is evaluated immediately before every evaluation of the case - a "sibling" with the
+	// same sizes, the same U and the same tie counts in another order, where possible: the
+	// result for the case must not depend on what was computed just before.
+	BeforeL1 []int `json:"before_l1,omitempty"`
+	BeforeL2 []int `json:"before_l2,omitempty"`
 }
 
 const SigLegacy = "mwu-two-sided-ties-legacy"
@@ -75,6 +81,9 @@ func mwu(c *Case, x1, x2 []float64, alt int) (call, error) {
 	oe, ot := stats.MannWhitneyExactLimit, stats.MannWhitneyTiesExactLimit
 	stats.MannWhitneyExactLimit, stats.MannWhitneyTiesExactLimit = c.ExactLimit, c.TiesLimit
 	defer func() { stats.MannWhitneyExactLimit, stats.MannWhitneyTiesExactLimit = oe, ot }()
+	if c.BeforeL1 != nil {
+		stats.MannWhitneyUTest(pick(c.BeforeL1, c.Values), pick(c.BeforeL2, c.Values), stats.LocationHypothesis(alt))
+	}
 	// The two samples are handed over as two windows of ONE backing array, a small gap apart
 	// (two stretches of one series), with sentinel-filled spare capacity behind: x1's capacity
 	// runs over the gap and x2, so an append-based "copy" of x1 lands in x2; nothing in the
@@ -459,5 +468,69 @@ func TestRandom(t *testing.T) {
 	ev.Rule(rule)
 	ev.Rapid(t, "c03-random", 2500, 160000, func(rt *rapid.T) {
 		checkLaws.Run(rt, drawCase(rt))
+	})
+}
+
+// TestSiblingHistory: small tied pairs, each evaluated right after a sibling pair - the same
+// data with the distinct values relabelled by a permutation chosen (by search) so that the sizes,
+// U and the multiset of tie counts agree while the order of the tie counts differs.
+func TestSiblingHistory(t *testing.T) {
+	ev.Rule(rule)
+	ev.Rapid(t, "c03-siblings", 1200, 40000, func(rt *rapid.T) {
+		k := rapid.IntRange(2, 5).Draw(rt, "levels")
+		n1, n2 := rapid.IntRange(1, 7).Draw(rt, "n1"), rapid.IntRange(1, 7).Draw(rt, "n2")
+		c := &Case{ExactLimit: 50, TiesLimit: 25}
+		for i := 0; i < k; i++ {
+			c.Values = append(c.Values, float64(i))
+			c.Mapped = append(c.Mapped, float64(3*i)+0.5)
+		}
+		for i := 0; i < n1; i++ {
+			c.L1 = append(c.L1, rapid.IntRange(0, k-1).Draw(rt, "l1"))
+		}
+		for i := 0; i < n2; i++ {
+			c.L2 = append(c.L2, rapid.IntRange(0, k-1).Draw(rt, "l2"))
+		}
+		c.Perm1, c.Perm2 = gen.Perm(rt, n1, "p1"), gen.Perm(rt, n2, "p2")
+		// search the relabellings of the levels for a sibling
+		u0 := ref.PairCountU2(pick(c.L1, c.Values), pick(c.L2, c.Values))
+		perm := make([]int, k)
+		for i := range perm {
+			perm[i] = i
+		}
+		apply := func(ls []int) []int {
+			out := make([]int, len(ls))
+			for i, l := range ls {
+				out[i] = perm[l]
+			}
+			return out
+		}
+		var bestL1, bestL2 []int
+		var rec func(i int)
+		rec = func(i int) {
+			if bestL1 != nil {
+				return
+			}
+			if i == k {
+				b1, b2 := apply(c.L1), apply(c.L2)
+				if fmt.Sprint(b1, b2) != fmt.Sprint(c.L1, c.L2) && ref.PairCountU2(pick(b1, c.Values), pick(b2, c.Values)) == u0 {
+					bestL1, bestL2 = b1, b2
+				}
+				return
+			}
+			for j := i; j < k; j++ {
+				perm[i], perm[j] = perm[j], perm[i]
+				rec(i + 1)
+				perm[i], perm[j] = perm[j], perm[i]
+			}
+		}
+		rec(0)
+		if bestL1 == nil { // no relabelling keeps U: any other pair of the same sizes will do
+			for i := range perm {
+				perm[i] = k - 1 - i
+			}
+			bestL1, bestL2 = apply(c.L1), apply(c.L2)
+		}
+		c.BeforeL1, c.BeforeL2 = bestL1, bestL2
+		checkLaws.Run(rt, c)
 	})
 }
